@@ -653,6 +653,13 @@ def proves_depth(fc, X, D, at):
                             or rd[0] == "assign" and _src(rd[1]) in ("%s + 1" % dsrc, "1 + %s" % dsrc)):
                         return False, "cell steps to a child at line %s but %s is not incremented by one with it" % (n.line, dsrc)
                     continue
+                if r[0] == "unpack" and rd[0] == "unpack" and n is m:
+                    # (D, X) = T[k] with T a local table of (depth, cell) records: every record put into T pairs a cell with the
+                    # index of the layer it was taken from
+                    okt, howt = table_of_depth_cell_pairs(fc, r[1], r[2], xs, dsrc)
+                    if okt:
+                        continue
+                    return False, howt
                 if r[0] == "assign":
                     lay2 = layer_of(fc, r[1], n)
                 elif r[0] == "for":
@@ -674,6 +681,47 @@ def proves_depth(fc, X, D, at):
                 return False, "%s has a definition that is not paired with a definition of %s" % (dsrc, xs)
             return True, "%s and %s are defined in lock-step (%d paired definitions)" % (xs, dsrc, len(dx))
     return False, "'%s' is not recognised as the depth of cell '%s'" % (dsrc, xs)
+
+
+def table_of_depth_cell_pairs(fc, value, target, xs, dsrc):
+    """`target = value` unpacks an element of a local list T.  True when T is only ever created empty / as a display and filled by
+    `T.append((.., .., ..))` with records of the target's length in which the component at X's position is a cell of the layer
+    whose index is the component at D's position; T is never aliased, passed on or modified otherwise."""
+    if not (isinstance(value, ast.Subscript) and isinstance(value.value, ast.Name) and isinstance(target, (ast.Tuple, ast.List))):
+        return False, "the unpacked value is not an element of a local table"
+    T = value.value.id
+    names = [_src(t) for t in target.elts]
+    if xs not in names or dsrc not in names:
+        return False, "the record does not carry both the cell and its depth"
+    px, pd = names.index(xs), names.index(dsrc)
+    recs = 0
+    for nd in ast.walk(fc.fn):
+        if not (isinstance(nd, ast.Name) and nd.id == T):
+            continue
+        p1 = fc.model.up(nd)
+        if isinstance(nd.ctx, ast.Store):
+            if isinstance(p1, ast.Assign) and len(p1.targets) == 1 and p1.targets[0] is nd and isinstance(p1.value, ast.List) and not p1.value.elts:
+                continue
+            return False, "the table %s is also bound otherwise (line %s)" % (T, nd.lineno)
+        if isinstance(p1, ast.Subscript) and p1.value is nd and isinstance(p1.ctx, ast.Load):
+            continue
+        if isinstance(p1, ast.Call) and _src(p1.func) == "len":
+            continue
+        if isinstance(p1, ast.Attribute) and p1.attr == "append" and isinstance(fc.model.up(p1), ast.Call) and fc.model.up(p1).func is p1:
+            call = fc.model.up(p1)
+            if len(call.args) != 1 or not isinstance(call.args[0], (ast.Tuple, ast.List)) or len(call.args[0].elts) != len(names):
+                return False, "a record of another shape is put into %s at line %s" % (T, call.lineno)
+            ex, ed = call.args[0].elts[px], call.args[0].elts[pd]
+            lay = layer_of(fc, ex, fc.node_of(call))
+            if lay is None or _src(lay) != _src(ed):
+                return False, "the record put into %s at line %s pairs '%s' with depth '%s' but the cell is taken from layer [%s]" % (
+                    T, call.lineno, _src(ex), _src(ed), _src(lay) if lay is not None else "?")
+            recs += 1
+            continue
+        return False, "the table %s is used in a way that may change it (line %s)" % (T, nd.lineno)
+    if not recs:
+        return False, "nothing is ever put into the table %s" % T
+    return True, "records of %s pair a cell with its layer index" % T
 
 
 def _range_counter_depth(fc, X, D, at):
